@@ -9,6 +9,8 @@ import BSEProofs.Lemmas.NwchemEcp
 import BSEModel.G94Inst
 import BSEProofs.Lemmas.G94RT
 import BSEProofs.Lemmas.G94EcpRT
+import BSEModel.TurbomoleInst
+import BSEProofs.Lemmas.TurbomoleRT
 /-! # C03 — reading back what the library wrote never silently changes the basis
 
 What is proved: (1) the number tables survive print → read token for token (only the exponent marker
@@ -409,6 +411,53 @@ example : (parseEcpBlock (realETables allTokS allTokS) (ecpBlock (realETables al
 refuses the block the writer produced for potentials l = 0, 2 -/
 theorem g94_ecp_gap_limit :
     (parseEcpBlock (realETables allTokS allTokS) (ecpBlock (realETables allTokS allTokS) 29 "10" cuGap)).toOption = none := by
+  decide +kernel
+
+/-! ## (8) Turbomole: the electron section, written then read -/
+
+open BSE.Turbomole in
+theorem tm_letter (l : Nat) (hl : l < 25) : ∃ c, amChar false l = some c ∧ amInt false c = some l := by
+  have h : ∀ l ∈ List.range 25, ∃ c, amChar false l = some c ∧ amInt false c = some l := by decide +kernel
+  exact h l (List.mem_range.2 hl)
+
+open BSE.Turbomole in
+/-- **Turbomole, electron section: read(write(elements)) = elements**, over the library's tables: every element 1..118
+(distinct), at least one shell each, shells with one momentum `l < 25`, one contraction, fewer than 400 primitives -/
+theorem turbomole_electron_roundtrip {ν : Type} (isNum isInt : ν → Bool) (name : List Char) (els : List (Nat × List (BSE.Nwchem.EShell ν)))
+    (hne : els ≠ []) (hnd : (els.map (·.1)).Nodup) (hz : ∀ e ∈ els, e.1 ∈ List.range' 1 118) (hsn : ∀ e ∈ els, e.2 ≠ [])
+    (hsh : ∀ e ∈ els, ∀ sh ∈ e.2, 0 < sh.exps.length ∧ sh.exps.length < 400 ∧ sh.coefs.length = 1 ∧ Rect sh.exps.length sh.coefs
+        ∧ (∀ x ∈ sh.exps, isNum x = true) ∧ (∀ c ∈ sh.coefs, ∀ x ∈ c, isNum x = true)
+        ∧ (∃ l, sh.am = [l] ∧ l < 25)) :
+    readElectronT (realTTables isNum isInt) (electronLinesT (realTTables isNum isInt) name els)
+      = .ok (els.map fun e => (e.1, e.2.map (BSE.Nwchem.toR (realTTables isNum isInt).toTables true))) := by
+  have hsym : ∀ z ∈ List.range' 1 118, zFromSym ((symFromZ z).getD []) = some z := by decide +kernel
+  have hcnt : ∀ n ∈ List.range 400, BSE.G94.natOfStr (toString n).toList = some n := by decide +kernel
+  apply readElectronT_write (realTTables isNum isInt) name els hne hnd
+  intro e he
+  refine ⟨hsym e.1 (hz e he), hsn e he, ?_⟩
+  intro sh hs
+  obtain ⟨h1, h1', h2, h3, h4, h5, l, hl, hl25⟩ := hsh e he sh hs
+  obtain ⟨c, hc, hi⟩ := tm_letter l hl25
+  have hcne : sh.coefs ≠ [] := by intro h0; rw [h0] at h2; simp at h2
+  have ham : amOfHik (sh.am.filterMap (amChar false)) = some sh.am := by
+    rw [hl]; simp [hc, amOfHik, hi]
+  have halpha : BSE.Nwchem.isAlphaStr (sh.am.filterMap (amChar false)) = true := by
+    rw [hl]
+    have h : ∀ l ∈ List.range 25, BSE.Nwchem.isAlphaStr ([l].filterMap (amChar false)) = true := by decide +kernel
+    exact h l (List.mem_range.2 hl25)
+  exact ⟨⟨h1, hcne, h3, ⟨h4, h5⟩, ⟨ham, halpha⟩, fun hgt => by rw [hl] at hgt; simp at hgt⟩, h2,
+    hcnt _ (List.mem_range.2 h1')⟩
+
+/-- non-vacuity -/
+def tmDemo : List (Nat × List (BSE.Nwchem.EShell String)) :=
+  [(1, [{ am := [0], exps := ["3.0", "1.0"], coefs := [["0.1", "0.9"]] }]),
+   (6, [{ am := [0], exps := ["2.0"], coefs := [["1.0"]] }, { am := [2], exps := ["0.8"], coefs := [["1.0"]] }])]
+
+open BSE.Turbomole in
+example : (readElectronT (realTTables (fun _ => true) (fun _ => true)) (electronLinesT (realTTables (fun _ => true) (fun _ => true)) "X".toList tmDemo)).toOption
+    = some [(1, [{ ftype := "gto".toList, am := [0], exps := ["3.0", "1.0"], coefs := [["0.1", "0.9"]] }]),
+            (6, [{ ftype := "gto".toList, am := [0], exps := ["2.0"], coefs := [["1.0"]] },
+                 { ftype := "gto_spherical".toList, am := [2], exps := ["0.8"], coefs := [["1.0"]] }])] := by
   decide +kernel
 
 example : tokens (replaceD (convExp true (rowLine [(7, "1.5e+01".toList), (20, "-2.0E-01".toList)] [])))
